@@ -154,6 +154,14 @@ int glob_files(fstree_t *fs, const char *filename, size_t line_num,
 	tree_node_t *root;
 	int ret;
 
+	/*
+	  There is no pack directory if none was specified and the name of
+	  the description file has no directory component: the input is
+	  relative to the current directory then.
+	 */
+	if (basepath == NULL)
+		basepath = ".";
+
 	/* fetch the actual target node */
 	root = fstree_get_node_by_path(fs, fs->root, ent->name, true, false);
 	if (root == NULL)
